@@ -166,11 +166,13 @@ def _validate_everything(item):
 
 
 def safe_contains(value, container):
-    """ Perform "in" containment check, allowing for TypeErrors.
+    """ Perform "in" containment check, allowing for comparison errors.
 
-    This is required because in some circumstances ``x in y`` can raise a
-    TypeError.  In these cases we make the (reasonable) assumption that the
-    value is _not_ contained in the container.
+    This is required because in some circumstances ``x in y`` can raise (a
+    TypeError for unorderable or unhashable values, a ValueError for
+    array-valued ``==``, or whatever the value's own ``__eq__`` raises).  In
+    these cases we make the (reasonable) assumption that the value is _not_
+    contained in the container, as the C-level enumeration validator does.
     """
     # Enums have an awkward history here. A containment check of an element
     # against an enum.Enum subclass variously returns, raises, and/or warns
@@ -183,7 +185,7 @@ def safe_contains(value, container):
 
     try:
         return value in container
-    except TypeError:
+    except Exception:
         return False
 
 
